@@ -77,6 +77,11 @@ type mtr struct {
 	sliceLen map[string]int64 // byte slices read with a constant length
 	ntmp     int
 	resPtr   []bool
+	// extensions used by psigen.go (all inert unless psi is set, so that Gen/ParseGen.v is unchanged)
+	psi      bool
+	ptrParam map[string]bool  // pointer parameters kept as options; a dereference binds `x <- ideref x`
+	abstract map[string]*msig // callees that are Section Variables of the current section, with the signatures used
+	absOK    map[string]bool  // callees that may be abstract in the current section
 }
 
 func isIterType(e ast.Expr) bool {
@@ -296,6 +301,9 @@ func (m *mtr) hoist(e ast.Expr, pre *string, guarded bool) ast.Expr {
 		if f, _, ok := m.parserCall(e); ok {
 			m.fail(e, "call of parser %s outside the `if ..., err = f(i); err != nil` form", f)
 		}
+		if m.psi && isIdent(e.Fun, "append") {
+			return m.hoistAppend(e, pre, guarded)
+		}
 		c := *e
 		c.Args = make([]ast.Expr, len(e.Args))
 		for k, a := range e.Args {
@@ -356,6 +364,9 @@ func (m *mtr) hoist(e ast.Expr, pre *string, guarded bool) ast.Expr {
 		c.X = m.hoist(e.X, pre, guarded)
 		return &c
 	case *ast.SelectorExpr:
+		if m.psi {
+			m.derefParam(e, pre, guarded)
+		}
 		c := *e
 		c.X = m.hoist(e.X, pre, guarded)
 		return &c
@@ -371,6 +382,10 @@ func (m *mtr) hoist(e ast.Expr, pre *string, guarded bool) ast.Expr {
 			m.fail(e, "index %s[%s] is not statically within the length the slice was read with", xid.Name, kv.String())
 		}
 		return e
+	case *ast.SliceExpr:
+		if m.psi {
+			return m.hoistSlice(e)
+		}
 	case *ast.CompositeLit:
 		c := *e
 		c.Elts = make([]ast.Expr, len(e.Elts))
@@ -420,7 +435,7 @@ func (m *mtr) errCheck(s *ast.IfStmt) (*ast.AssignStmt, bool) {
 }
 
 // propagates checks that the body of an error check hands the error on (wrapped with %w or as it is).
-func (m *mtr) propagates(body []ast.Stmt, n ast.Node) {
+func (m *mtr) propagates(body []ast.Stmt, n ast.Node) string {
 	if len(body) == 0 {
 		m.fail(n, "error check with an empty body")
 	}
@@ -436,14 +451,21 @@ func (m *mtr) propagates(body []ast.Stmt, n ast.Node) {
 	}
 	switch len(body) {
 	case 1:
-		return
+		return ""
 	case 2:
 		as, ok := body[0].(*ast.AssignStmt)
-		if ok && as.Tok == token.ASSIGN && len(as.Lhs) == 1 && len(as.Rhs) == 1 && isIdent(as.Lhs[0], "err") && m.wraps(as.Rhs[0]) {
-			return
+		if ok && as.Tok == token.ASSIGN && len(as.Lhs) == 1 && len(as.Rhs) == 1 && isIdent(as.Lhs[0], "err") {
+			if m.wraps(as.Rhs[0]) {
+				return ""
+			}
+			if m.psi {
+				// the callee's error is replaced by a new one: `imaperr code (callee)`
+				return m.errCode(as.Rhs[0])
+			}
 		}
 	}
 	m.fail(n, "error check whose body is not `err = fmt.Errorf(\"...%%w\", err); return`")
+	return ""
 }
 
 // wraps recognises fmt.Errorf("...%w...", ..., err).
@@ -570,7 +592,7 @@ func (m *mtr) monadic(list []ast.Stmt) bool {
 	found := false
 	for _, s := range list {
 		ast.Inspect(s, func(n ast.Node) bool {
-			if id, ok := n.(*ast.Ident); ok && id.Name == m.it {
+			if id, ok := n.(*ast.Ident); ok && (id.Name == m.it || (m.psi && m.ptrParam[id.Name] && !m.nonNil[id.Name])) {
 				found = true
 			}
 			return true
@@ -687,6 +709,25 @@ func (m *mtr) liveStmt(s ast.Stmt, after vset) vset {
 			live = m.liveStmt(s.Init, live)
 		}
 		return live
+	case *ast.ForStmt:
+		if s.Init != nil || s.Post != nil {
+			return vset{"*": true}
+		}
+		live := after.copy()
+		for {
+			n := m.liveBefore(s.Body.List, live)
+			reads(n, s.Cond)
+			grew := false
+			for k := range n {
+				if !live[k] {
+					live[k] = true
+					grew = true
+				}
+			}
+			if !grew {
+				return live
+			}
+		}
 	case *ast.SwitchStmt:
 		live := after.copy()
 		for _, c := range s.Body.List {
@@ -1057,7 +1098,13 @@ func (m *mtr) stmts(list []ast.Stmt, out vset, k func() string) string {
 					val = typ.zero()
 				}
 				if typ.k == "opt" {
-					m.fail(s, "local pointer variable %s", id.Name)
+					if !m.psi || i < len(vs.Values) {
+						m.fail(s, "local pointer variable %s", id.Name)
+					}
+					// `var x *T`: the record, not known to be non-nil until a parser result is stored in it
+					typ = typ.elem
+					val = typ.zero()
+					m.ptrVar[id.Name] = true
 				}
 				m.env[id.Name] = typ
 				m.decl[id.Name] = typ
@@ -1098,15 +1145,25 @@ func (m *mtr) stmts(list []ast.Stmt, out vset, k func() string) string {
 			m.fail(s, "switch with init")
 		}
 		return m.stmts(append([]ast.Stmt{m.switchToIf(s)}, list[1:]...), out, k)
+	case *ast.ForStmt:
+		if !m.psi {
+			m.fail(s, "unsupported statement %T", s)
+		}
+		return m.forLoop(s, list[1:], out, k)
 	case *ast.IfStmt:
 		if as, ok := m.errCheck(s); ok {
 			if s.Else != nil {
 				m.fail(s, "error check with else")
 			}
-			m.propagates(s.Body.List, s)
-			return m.bindCall(as) + rest()
+			return m.bindCall(as, m.propagates(s.Body.List, s)) + rest()
 		}
 		if s.Init != nil {
+			if as, ok := s.Init.(*ast.AssignStmt); ok && m.psi && as.Tok == token.DEFINE {
+				// `if x := e; c { ... }` is `x := e; if c { ... }` (x stays declared: a later redeclaration is refused)
+				plain := *s
+				plain.Init = nil
+				return m.stmts(append([]ast.Stmt{as, &plain}, list[1:]...), out, k)
+			}
 			m.fail(s, "if with init that is not an error check")
 		}
 		pre := ""
@@ -1149,7 +1206,7 @@ func (m *mtr) stmts(list []ast.Stmt, out vset, k func() string) string {
 			fin := func() string { m.needVars(vars, s); return "iret " + mtuple(vars) }
 			th = m.stmts(body, after, fin)
 			m.restore(saved)
-			el = m.stmts(els, after, fin)
+			el = m.elseBranch(els, after, fin, true)
 		} else {
 			if len(vars) == 0 {
 				m.restore(saved)
@@ -1161,7 +1218,7 @@ func (m *mtr) stmts(list []ast.Stmt, out vset, k func() string) string {
 			fin := func() string { m.needVars(vars, s); return tuple(vars) }
 			th = m.stmts(body, after, fin)
 			m.restore(saved)
-			el = m.stmts(els, after, fin)
+			el = m.elseBranch(els, after, fin, false)
 		}
 		m.restore(saved)
 		for _, v := range dead {
@@ -1227,7 +1284,7 @@ func (m *mtr) assigned(list []ast.Stmt, set map[string]bool) {
 }
 
 // bindCall: `lhs..., err = call` of an iterator primitive or of a translated parser.
-func (m *mtr) bindCall(as *ast.AssignStmt) string {
+func (m *mtr) bindCall(as *ast.AssignStmt, replace string) string {
 	if as.Tok != token.ASSIGN {
 		m.fail(as, "error check that defines variables")
 	}
@@ -1266,6 +1323,9 @@ func (m *mtr) bindCall(as *ast.AssignStmt) string {
 		resPtr = []bool{false}
 	} else if f, c, ok := m.parserCall(call); ok {
 		sig, ok := mtranslated[f]
+		if m.psi && m.absOK[f] {
+			sig, ok = m.abstractSig(f, call), true
+		}
 		if !ok {
 			m.fail(call, "call of untranslated parser %s", f)
 		}
@@ -1293,6 +1353,9 @@ func (m *mtr) bindCall(as *ast.AssignStmt) string {
 	for range lhs {
 		m.ntmp++
 		tmps = append(tmps, fmt.Sprintf("r%d_", m.ntmp))
+	}
+	if replace != "" {
+		comp = "(imaperr " + replace + " " + comp + ")"
 	}
 	o := pre + mpat(tmps) + " <- " + comp + " ;;\n  "
 	for k, l := range lhs {
